@@ -69,10 +69,11 @@ def load_findings():
 
 # ------------------------------------------------------------------ worker
 RLIMIT_PER_MS = 4000   # about one millisecond of z3 work on an idle core of this sandbox
+OLD_Z3_RLIMIT = 2_500_000_000   # /usr/bin/z3 (4.8.12): deterministic budget, about 3x the hardest VC on the unchanged tree
 
 
 def solve_text(text, timeout_ms, use_cvc5=True, prefer=None):
-    """z3 E-matching only (short), then z3 with MBQI, then cvc5, on the SMT-LIB text of one VC."""
+    """z3 5.1 E-matching only (short), z3 5.1 with MBQI, the z3 4.8.12 binary, then cvc5, on the SMT-LIB text of one VC."""
     t0 = time.time()
     res, model, backend, reason = "unknown", None, "z3", ""
     if prefer == "cvc5":
@@ -80,7 +81,9 @@ def solve_text(text, timeout_ms, use_cvc5=True, prefer=None):
         if r3 == "unsat":
             return "discharged", None, "cvc5", "", time.time() - t0
     for mbqi, tmo in ((False, min(timeout_ms, 4000)), (True, timeout_ms)):
-        s = z3.Solver()
+        # a fresh context per VC: the verdict is a function of the VC text, not of what the worker solved before
+        ctx = z3.Context()
+        s = z3.Solver(ctx=ctx)
         # deterministic resource budget (verdicts must not flip when the machine is loaded);
         # the wall-clock limit is only a generous safety net
         s.set("rlimit", tmo * RLIMIT_PER_MS)
@@ -93,9 +96,18 @@ def solve_text(text, timeout_ms, use_cvc5=True, prefer=None):
             res, backend = "discharged", "z3" if not mbqi else "z3-mbqi"
             break
         if r == z3.sat:
-            res, backend, model = "refuted", "z3" if not mbqi else "z3-mbqi", s.model()
+            res, backend, model = "refuted", "z3" if not mbqi else "z3-mbqi", s.model().translate(z3.main_ctx())
             break
         reason = s.reason_unknown()
+    if res == "unknown" and " String" not in text and "str." not in text:
+        # (string VCs go straight to cvc5: the old sequence solver only burns its budget on them)
+        # the Debian z3 4.8.12 binary: its quantifier instantiation order decides nested if-then-else
+        # list terms that z3 5.1 leaves open; only `unsat` is used
+        r2, _t, reason2 = smt._solve_z3_old(text, OLD_Z3_RLIMIT, 600)
+        if r2 == "unsat":
+            res, backend = "discharged", "z3-4.8.12"
+        else:
+            reason = reason + " | z3-4.8.12: " + reason2
     if res == "unknown" and use_cvc5:
         r3, _t, reason3 = smt._solve_cvc5(text, max(timeout_ms * 3, 120000))
         if r3 == "unsat":
@@ -546,7 +558,7 @@ def assemble(pid, tier, seed, cons, results, cross, extras, known, findings, wal
             "bounded": bounded,
             "native_crosscheck_evaluations": sum(c["evaluations"] for c in cross),
             "explanation": "obligations = VCs generated from the real source of /repo by pyvc on this run; "
-                           "discharged = unsat answers of z3/cvc5; bounded entries are not counted as proved",
+                           "discharged = unsat answers of z3 5.1 / z3 4.8.12 / cvc5; bounded entries are not counted as proved",
         },
         "assumptions": sorted(assumptions),
         "wall_s": round(wall, 2),
@@ -568,7 +580,7 @@ def trusted_base(cons):
     for c in REGISTRY.values():
         if c.trusted:
             out.add(f"assumed contract: {c.target} ({c.note})" if c.note else f"assumed contract: {c.target}")
-    out.add("z3 / cvc5 soundness; pyvc symbolic executor (guarded by the CPython cross-check and mutant self-test)")
+    out.add("z3 (5.1 wheel and 4.8.12 binary) / cvc5 soundness; pyvc symbolic executor (guarded by the CPython cross-check and mutant self-test)")
     out.add("Python ints are unbounded: integer arithmetic is encoded as mathematical (exact)")
     return out
 
